@@ -345,6 +345,12 @@ def fd_scenarios(scratch):
             sc.append(('runtime-error-sorted-at-%d' % k, 'select a1 order by 1 / (%d - NR)' % k, src, 'quoted', hdr))
     sc.append(('missing-input-file', 'select a1', os.path.join(scratch, 'nope_in.csv'), 'quoted', False))
     sc.append(('bad-delim-policy', 'select a1', src, 'whitespace', False))
+    # each open() of the front-end failing in turn: input missing / a directory, output in a missing directory / a directory, join file a directory
+    sc.append(('input-is-a-directory', 'select a1', scratch, 'quoted', False))
+    sc.append(('output-directory-missing', 'select a1', src, 'quoted', False, os.path.join(scratch, 'no_such_dir', 'out.csv')))
+    sc.append(('output-is-a-directory', 'select a1', src, 'quoted', False, scratch))
+    sc.append(('input-missing-and-output-directory-missing', 'select a1', os.path.join(scratch, 'nope_in.csv'), 'quoted', False, os.path.join(scratch, 'no_such_dir', 'out.csv')))
+    sc.append(('join-is-a-directory', 'select a1 join %s on a1 == b1' % scratch, src, 'quoted', False))
     return sc, dst
 
 
@@ -353,14 +359,18 @@ def shard_fd(shard, nshards, tier, seed, scratch):
     failures, seen = [], set()
     scenarios, dst = fd_scenarios(scratch)
     outcomes = {}
-    for name, query, path, policy, hdr in scenarios:
+    for sc in scenarios:
+        name, query, path, policy, hdr = sc[:5]
+        out_path = sc[5] if len(sc) > 5 else dst
         before = fd_snapshot()
-        err = None
+        err, held = None, None
         try:
-            engine.rbql.query_csv(query, path, ',', policy, dst, ',', 'quoted', 'utf-8', [], hdr)
+            engine.rbql.query_csv(query, path, ',', policy, out_path, ',', 'quoted', 'utf-8', [], hdr)
         except BaseException as e:
             err = type(e).__name__
+            held = e     # the traceback keeps the frames (and their open file objects) alive: a file that only garbage collection would close counts as left open
         after = fd_snapshot()
+        held = None
         stats.evaluations += 1
         stats.nontrivial_counted += 1
         outcomes[name] = err
@@ -380,12 +390,14 @@ def shard_fd(shard, nshards, tier, seed, scratch):
                                ('sqlite-runtime-error', 'select 1 / (3 - NR)', 't'), ('sqlite-no-table', 'select a1', 'nosuch'), ('sqlite-hostile-join', 'select a1 join j;drop/**/table/**/t on a1 == b1', 't'),
                                ('sqlite-bad-input-name', 'select a1', 't;x')]:
         before = fd_snapshot()
-        err = None
+        err, held = None, None
         try:
             rbql_sqlite.query_sqlite_to_csv(query, con, table, dst, ',', 'quoted', 'utf-8', [])
         except BaseException as e:
             err = type(e).__name__
+            held = e
         after = fd_snapshot()
+        held = None
         stats.evaluations += 1
         stats.nontrivial_counted += 1
         outcomes[name] = err
